@@ -907,6 +907,9 @@ class SymInterp(Interp):
                     raise Raised("IndexError", node)
             if name == "copy":
                 return list(recv)
+            if name == "sort" and not args and len(recv) <= 5 and not any(is_marker(x) for x in recv) and set(kwargs or {}) <= {"key", "reverse"}:
+                recv[:] = self._sorted(list(recv), (kwargs or {}).get("key"), (kwargs or {}).get("reverse", False), node, func)
+                return None
             if name == "reverse":
                 recv.reverse()
                 self.trace.append(("list.reverse", recv))
@@ -957,6 +960,23 @@ class SymInterp(Interp):
                 if f is not None:
                     return self.call_function(f, args, kwargs, recv=recv)
         return NotImplemented
+
+    def _sorted(self, seq, keyf, reverse, node, func):
+        """stable insertion sort; undecided key comparisons become order atoms (every resulting order is explored)"""
+        if not isinstance(reverse, bool):
+            raise AnalysisError("%s: sorted(reverse=<non-constant>)" % func.loc(node))
+        keys = [x if keyf is None else self.call_value(keyf, None, [x], {}, node, {}, func) for x in seq]
+        out = []
+        for x, kx in zip(seq, keys):
+            pos = len(out)
+            while pos > 0:
+                ky = out[pos - 1][1]
+                less = self.order(ast.Lt(), ky, kx) if reverse else self.order(ast.Lt(), kx, ky)
+                if not less:
+                    break
+                pos -= 1
+            out.insert(pos, (x, kx))
+        return [x for x, _ in out]
 
     def _chain(self, iterables):
         out = []
@@ -1096,7 +1116,15 @@ class SymInterp(Interp):
                 if seq is not None and not any(is_marker(x) for x in seq):
                     vals = [self.truth(x, node, func) for x in seq]
                     return any(vals) if name == "any" else all(vals)
-            if name in ("sorted", "reversed") and args:
+            if name == "sorted" and args:
+                seq = self.concrete_iter(args[0])
+                if seq is not None and not any(is_marker(x) for x in seq) and len(seq) <= 5 and set(kwargs or {}) <= {"key", "reverse"}:
+                    return self._sorted(list(seq), (kwargs or {}).get("key"), (kwargs or {}).get("reverse", False), node, func)
+                return Sym(name, *args)
+            if name == "reversed" and args:
+                seq = self.concrete_iter(args[0])
+                if seq is not None and not any(is_marker(x) for x in seq):
+                    return list(reversed(seq))
                 return Sym(name, *args)
         return NotImplemented
 
